@@ -275,7 +275,7 @@ void register_c20(std::vector<Profile>& v)
                        "UnboundedSPSCQueue::shrink", "TransitEventBuffer"};
   p.stub_components = {"recording sink", "clock (virtual)", "scheduling (simulator)"};
   p.assumptions = {"a context is counted as reclaimed if the count matches within 60 idle backend polls after flush_log() in the fair phase"};
-  p.quick_runs = 400;
+  p.quick_runs = 1000;
   p.thorough_runs = 40000;
   v.push_back(p);
 }
